@@ -56,6 +56,7 @@ class Result:
         self.model = model or {}
         self.per_solver = per_solver or {}
         self.cached = cached
+        self.confirmed = 1      # number of solvers that returned this verdict
 
 
 def parse_model(text):
@@ -100,7 +101,9 @@ def run_portfolio(text, timeout=20, solvers=None, want_model=True, need=1, use_c
         with _cache_lock:
             c = _load_cache().get(h)
         if c is not None and c["status"] in ("unsat",) and c.get("need", 1) >= need:
-            return Result(c["status"], c["solver"], 0.0, per_solver=c.get("per_solver", {}), cached=True)
+            rc_ = Result(c["status"], c["solver"], 0.0, per_solver=c.get("per_solver", {}), cached=True)
+            rc_.confirmed = c.get("need", 1)
+            return rc_
     if fast and solvers is None and need == 1 and FAST_FIRST and len(text) < 400000:
         # most obligations are easy: ask one solver first (a third of the processes), race all three only if it
         # does not answer quickly
@@ -174,9 +177,10 @@ def run_portfolio(text, timeout=20, solvers=None, want_model=True, need=1, use_c
         st = vals.pop()
         win = definite[0]
         model = parse_model(outputs[win]) if st == "sat" else {}
-        if st == "unsat" and len(definite) < need:
-            st = "unknown"
         r = Result(st, win, secs, outputs[win][:4000], model, per)
+        # thorough tier: a second solver is awaited until the timeout; if none answers, the single verdict stands
+        # and is counted separately in the evidence (a contradicting answer is an error, see above)
+        r.confirmed = len(definite)
         if st == "unsat":
             _store_cache(h, {"h": h, "status": "unsat", "solver": win, "need": len(definite), "per_solver": per})
         return r
